@@ -290,22 +290,35 @@ def unalias (guard : Bool) (x o : Nat) (s : St) : R Nat :=
   if guard && x == o then alloc (s.desc x) (s.val x) s else .ok x s
 
 /-- a single-pass wrapper as of round 4:
-`output = _get_output(A, out, dtype); if np.may_share_memory(A, output): A = A.copy(); return kernel(A, Bc, output)`
+`output = _get_output(A, out, dtype); if np.may_share_memory(A, output): A = A.copy();
+[if np.may_share_memory(Bc, output): Bc = Bc.copy();] return kernel(A, Bc, output)`
 (dilate, erode, locmax/locmin/regmax/regmin, majority_filter, hitmiss, convolve, convolve1d on its fast path,
-median/mean/rank filter, template_match, border(s), shift, zoom) -/
+median/mean/rank filter, template_match, border(s), shift, zoom). The second operand is protected either by a guard of
+its own in the wrapper (erode, dilate, template_match) or because the native filter iterator copies the filter into its
+own tables before the first store (`new_filter_data`, offsets: convolve, rank/median/mean filter, locmin_max, regmin_max,
+hitmiss, border(s)) — both are a private copy taken before `out` is written; `guard = false` drops both. -/
 def kernel1G (guard : Bool) (op : Op) (a bc : Nat) (out : Option Nat) (dtype : Option Nat) (s : St) : R Nat :=
   (getOut a out dtype s).bind fun o s =>
   (unalias guard a o s).bind fun a' s =>
-  .ok o (kernelWrite op a' bc o s)
+  (unalias guard bc o s).bind fun bc' s =>
+  .ok o (kernelWrite op a' bc' o s)
+
+/-- `if np.may_share_memory(Bc, out): Bc = Bc.copy()` in front of a two-pass wrapper (`out` may be `None`) -/
+def unaliasOpt (guard : Bool) (x : Nat) (out : Option Nat) (s : St) : R Nat :=
+  match out with
+  | some o => unalias guard x o s
+  | none => .ok x s
 
 /-- `open` over the guarded `erode`/`dilate` -/
 def openGP (guard : Bool) (f bc : Nat) (out : Option Nat) (s : St) : R Nat :=
+  (unaliasOpt guard bc out s).bind fun bc s =>
   (kernel1G guard .erode f bc out none s).bind fun eroded s =>
   (alloc (s.desc eroded) (s.val eroded) s).bind fun tmp s =>
   kernel1G guard .dilate tmp bc (some eroded) none s
 
 /-- `close` over the guarded `dilate`/`erode` -/
 def closeGP (guard : Bool) (f bc : Nat) (out : Option Nat) (s : St) : R Nat :=
+  (unaliasOpt guard bc out s).bind fun bc s =>
   (kernel1G guard .dilate f bc out none s).bind fun dilated s =>
   (alloc (s.desc dilated) (s.val dilated) s).bind fun tmp s =>
   kernel1G guard .erode tmp bc (some dilated) none s
@@ -316,6 +329,7 @@ def cerodeGP (guard : Bool) (f g bc : Nat) (out : Option Nat) (s : St) : R Nat :
   (alloc (s.desc f) (.ap .maximum (s.val f) (s.val g)) s).bind fun f1 s =>
   (getOut f1 out none s).bind fun o s =>
   (unalias guard g o s).bind fun g' s =>
+  (unalias guard bc o s).bind fun bc s =>
   let s := kernelWrite .erode f1 bc o s
   .ok o (write o (.ap .maximum (s.val o) (s.val g')) s)
 
@@ -343,9 +357,11 @@ def tophatOpenGP (guard : Bool) (f bc : Nat) (out : Option Nat) (s : St) : R Nat
 
 /-- "store, then in-place kernel" wrappers (`label`: `output[:] = (array != 0); _labeled.label(output, Bc)`;
 `spline_filter(1d)`: `output[...] = array; _interpolate.spline_filter1d(output, …)`): the whole-buffer store is
-element-wise (a self-assignment when `out` is the input) and the kernel then only works on `output` -/
-def inplaceP (op : Op) (a bc : Nat) (out : Option Nat) (dtype : Option Nat) (s : St) : R Nat :=
+element-wise (a self-assignment when `out` is the input) and the kernel then only works on `output` (and, for `label`, reads
+the structuring element, which the wrapper copies first when it shares memory with `output`) -/
+def inplaceP (guard : Bool) (op : Op) (a bc : Nat) (out : Option Nat) (dtype : Option Nat) (s : St) : R Nat :=
   (getOut a out dtype s).bind fun o s =>
+  (unalias guard bc o s).bind fun bc s =>     -- `label`: `if np.may_share_memory(Bc, output): Bc = Bc.copy()` before the store
   let s := write o (s.val a) s
   .ok o (write o (.ap op (s.val o) (readWhile s o bc)) s)
 
@@ -432,7 +448,7 @@ def handle (a : Args) : String :=
       | "subm" => (some (submGP g 0 1), two)
       | "tophat_close" => (some (tophatCloseGP g 0 1), two)
       | "tophat_open" => (some (tophatOpenGP g 0 1), two)
-      | "inplace" => (some (fun o => inplaceP .kernel 0 1 o dt), two)
+      | "inplace" => (some (fun o => inplaceP g .kernel 0 1 o dt), two)
       | "gaussian" => (some (fun o => gaussRepairedP 0 1 o arr.shape.length), two)
       | _ => (none, two)
     match run with
